@@ -439,7 +439,7 @@ def gen_load(world, rng, cnt, starts, bias=None):
         'param', 'interp', 'track', 'mode', 'too_long', 'new_short', 'first_nonzero', 'decreasing',
         'unequal', 'duplicate', 'zero_times', 'append_wrong_start', 'append_gap', 'append_overlap',
         'bad_start', 'bad_coord', 'random_times', 'negative_times', 'append_zero', 'new_over_live',
-        'append_from_zero', 'append_near_start', 'append_near_start']
+        'append_from_zero', 'append_near_start', 'append_near_start', 'wrap_progression']
     kind = bias or rng.choice(kinds)
     mode = 2 if kind.startswith('append') else 1
     start = starts[0]
@@ -523,6 +523,19 @@ def gen_load(world, rng, cnt, starts, bias=None):
         times = [(-abs(t) - (1 if i >= k else 0)) if i >= k else t for i, t in enumerate(times)]
         if rng.random() < 0.3:
             times = times_valid(-delta * (n - 1), delta, n)
+    elif kind == 'wrap_progression':
+        # equally spaced and increasing only if the INT32 field is misread as unsigned (or its sign bit dropped):
+        # an arithmetic progression modulo 2^32 that crosses the sign bit (seeded change C17-r4m2)
+        n = max(n, 5) if mode == 1 else max(n, 2)
+        if rng.random() < 0.5:
+            d = 1 << 29
+        else:
+            d = rng.randrange((1 << 31) // max(1, n - 1) + 1, (1 << 32) // n)
+        u0 = 0 if mode == 1 else ((table[-1] + d) if table else d)
+        times = []
+        for i in range(n):
+            u = (u0 + d * i) % (1 << 32)
+            times.append(u - (1 << 32) if u >= (1 << 31) else u)
     elif kind == 'append_zero':
         n = 0
     elif kind == 'append_from_zero':      # an append that looks like a new table
